@@ -24,8 +24,12 @@ func drawC18(t *rapid.T, x *X) *Case {
 	if gspec.U(t, 8, "manyjobs") == 0 {
 		n = 32
 	}
+	// a sixth of the cases trace every call (the trace goes to the discarded standard output;
+	// whatever the tracing code shares between parsers is shared by all calls of the case)
+	debugCase := gspec.U(t, 6, "debugcase") == 0
 	for i := 0; i < n; i++ {
 		j := Job{Entry: drawEntry(t, g, false)}
+		j.Opts.Debug = debugCase
 		j.Input = gspec.SampleInput(t, g, entryRuleName(g, j.Entry), alphabetFor(g), 40)
 		// longer inputs keep the parses busy long enough to overlap
 		if gspec.U(t, 2, "repeat") == 0 && len(j.Input) > 0 && len(j.Input) < 20 {
@@ -33,6 +37,14 @@ func drawC18(t *rapid.T, x *X) *Case {
 		}
 		j.Plan = drawPlan(t, g, 2, true, false)
 		j.Plan.TryStateWrites = gspec.U(t, 2, "trywrites") == 0
+		// calls that end in a recovered panic next to calls that do not: a fifth of the jobs let
+		// one block panic whenever it runs, a tenth run under a budget of a few expressions
+		if ids := codeIDs(g); len(ids) > 0 && gspec.U(t, 5, "panicjob") == 0 {
+			j.Plan.Faults = append(j.Plan.Faults, vrt.Fault{ID: gspec.Pick(t, ids, "panicid"), Kind: gspec.Pick(t, []string{"panic_err", "panic_str"}, "panickind"), Msg: "boom"})
+		}
+		if gspec.U(t, 10, "tinybudget") == 0 {
+			j.Opts.MaxExpr = uint64(3 + gspec.U(t, 40, "tinybudgetn"))
+		}
 		j.ViaReader = gspec.U(t, 3, "viareader") == 0
 		if gspec.U(t, 5, "invalidutf8") == 0 {
 			j.Input = gspec.InvalidUTF8Edit(t, j.Input)
@@ -67,7 +79,11 @@ func runJob(pk PkgMeta, j *Job, safety uint64) *jobResult {
 	reg := vrt.Lookup(pk.Name)
 	ctx := vrt.NewCtx(j.Plan)
 	req := &vrt.Request{Entry: j.Entry, Filename: j.Opts.Filename, Input: j.Input, Memoize: j.Opts.Memoize && !pk.Optimized, Stats: j.Opts.Stats && !pk.Optimized,
+		Debug:   j.Opts.Debug && !pk.Optimized,
 		MaxExpr: safety, InitState: initStateOf(j.Opts), Ctx: ctx, ViaReader: j.ViaReader, AllowInvalid: j.Opts.AllowInvalid}
+	if j.Opts.MaxExpr > 0 {
+		req.MaxExpr = j.Opts.MaxExpr
+	}
 	if len(j.Opts.InitInts) > 0 && !pk.HasInitState {
 		req.InitState = nil
 	}
